@@ -70,7 +70,10 @@ MODELS = {
     'adx': dict(kind='cnd', params=[('period', 14, P(1, 30))], minlen=lambda kw: kw['period'] + 1),
     # emd's njit kernels read price[i-2] out of bounds below 3 rows; the filter constants are passed to the kernel
     'emd': dict(kind='cnd', params=[('period', 20, P(3, 40)), ('fraction', 0.1, F(0.1, 0.25, 0.5))],
-                fields=['upperband', 'middleband', 'lowerband'], minlen=lambda kw: 3, lean_extra=lambda kw: emd_consts(kw['period'], 0.5), nmax=110),
+                fields=['upperband', 'middleband', 'lowerband'], minlen=lambda kw: 3, lean_extra=lambda kw: emd_consts(kw['period'], 0.5), nmax=110,
+                # period 4 with delta 0.5 is degenerate: gamma = 1/cos(pi/2) is 1.6e16 in floats (a division by zero in exact
+                # arithmetic), the filter then amplifies rounding residues without bound
+                fix=lambda kw: kw.update(period=5) if kw['period'] == 4 else None),
     # on a constant series the float stages differ from the price by ulps of either sign and cu/(cu+cd) is noise
     # dyadic alpha only: with alpha = 0.2 a constant price gives l0 = 0.2 p + 0.8 p = p(1 + 1e-16) in floats, so that
     # cu/(cu+cd) is 1 where the exact kernel has 0/0 -> 0 (a rounding residue divided by itself, not a model difference)
